@@ -186,10 +186,11 @@ Proof. vm_compute. reflexivity. Qed.
 Lemma confidence_clamp d : confidence d = confidence (clamp d).
 Proof.
   unfold confidence, clamp. cbn [d_nc d_null d_low d_nearby d_poison]. rewrite nearby_len.
-  destruct (0 <? d_nearby d) eqn:E1.
-  - assert (E2 : (0 <? Z.max 0 (Z.min (d_nearby d) 4)) = true) by lia. rewrite E2.
+  unfold NEARBY_GUARD, NEARBY_INDEX.
+  destruct (d_nearby d >? 0) eqn:E1.
+  - assert (E2 : (Z.max 0 (Z.min (d_nearby d) 4) >? 0) = true) by lia. rewrite E2.
     replace (Z.min (Z.max 0 (Z.min (d_nearby d) 4)) 4) with (Z.min (d_nearby d) 4) by lia. reflexivity.
-  - assert (E2 : (0 <? Z.max 0 (Z.min (d_nearby d) 4)) = false) by lia. rewrite E2. reflexivity.
+  - assert (E2 : (Z.max 0 (Z.min (d_nearby d) 4) >? 0) = false) by lia. rewrite E2. reflexivity.
 Qed.
 
 Definition bools := [true; false].
@@ -215,11 +216,15 @@ Proof.
   pose proof all_classes_ok as H. rewrite forallb_forall in H. apply (H (clamp d)). apply clamp_in.
 Qed.
 
-(* the NEARBY_REGISTER[nearby] index is always in bounds *)
-Lemma confidence_index_ok n : 0 < n ->
-  nth_error NEARBY_REGISTER_c (Z.to_nat (Z.min n (Z.of_nat (length NEARBY_REGISTER_c)) - 1)) <> None.
+(* the NEARBY_REGISTER[nearby] index (guard and index expression regenerated from the source) is always
+   in bounds: no usize underflow, no index panic *)
+Lemma confidence_index_ok n : NEARBY_GUARD n = true ->
+  0 <= NEARBY_INDEX (Z.of_nat (length NEARBY_REGISTER_c)) n < Z.of_nat (length NEARBY_REGISTER_c) /\
+  nth_index NEARBY_REGISTER_c (NEARBY_INDEX (Z.of_nat (length NEARBY_REGISTER_c)) n) <> None.
 Proof.
-  intros Hn. rewrite nearby_len. apply nth_error_Some.
+  unfold NEARBY_GUARD, NEARBY_INDEX, nth_index. intros Hn. rewrite nearby_len.
+  assert (Hr : 0 <= Z.min n 4 - 1 < 4) by lia. split; [exact Hr|].
+  destruct (Z.min n 4 - 1 <? 0) eqn:E; [lia|]. apply nth_error_Some.
   assert (Hl : length NEARBY_REGISTER_c = 4%nat) by (vm_compute; reflexivity). rewrite Hl. lia.
 Qed.
 
